@@ -971,11 +971,11 @@ func startWatchdog(res *hx.Result, o hx.Opts, drv *hx.Driver) {
 		for {
 			time.Sleep(2 * time.Second)
 			watch.Lock()
-			stuck := time.Since(watch.beat) > 60*time.Second
+			stuck := time.Since(watch.beat) > hx.StallLimit(60*time.Second)
 			lines := append([]string(nil), watch.lines...)
 			watch.Unlock()
 			if stuck {
-				what := "the call did not return within 60 s (a directory lock left behind by an earlier call?)"
+				what := "the call did not return within the load-scaled stall limit (at least 240 s) (a directory lock left behind by an earlier call?)"
 				if n := len(lines); n > 0 {
 					what = lines[n-1] + ": " + what
 				}
